@@ -70,8 +70,8 @@ def _run(ctx, pt, rng, quick, cap, tmpdir):
     meta = {}      # job id -> (family, code_spec, dec_spec, errors, contexts, mode)
     codes = {}
     mat_lines = []
-    per_weight = ctx.pick(2, 4)
-    nparam = ctx.pick(3, 6)
+    per_weight = ctx.pick(2, 3)
+    nparam = ctx.pick(3, 5)
     for family, cs in zoo.family_codes(quick):
         code = zoo.make_code(cs)
         n = code.n_k_d[0]
